@@ -1,6 +1,7 @@
 package props
 
 import (
+	"astverif/crcgate"
 	"astverif/layout"
 	"astverif/lin"
 	"astverif/tables"
@@ -63,6 +64,11 @@ func c13(c *Ctx) {
 	}
 	ckp.A3(r, c13PMT(c))
 	ckp.A3(r, c13SpecPairs(c))
+	// the descriptor loops inside the tables: 12-bit loop length, several descriptors, loops above 1023 / 2047 bytes
+	ckp.A3(r, c13LoopPairs(c))
+	// where a section and its CRC_32 end (section_length, CRC only for the table ids that carry one — a TOT has
+	// section_syntax_indicator 0 and still ends with a CRC_32): the input-side gate rules of C09
+	crcgate.InputGate(c.P, r)
 	// the lengths the PAT/PMT writers announce (section_length, program_info_length, ES_info_length, descriptor_length)
 	// equal the bytes they emit: rule A2 level by level, including narrow-arithmetic wrap-around (shared with C09)
 	c09Lengths(c)
